@@ -2944,11 +2944,21 @@ def _spec_LOG(I, t):
 
 
 
-@lib("numpy.ones_like", "numpy.zeros_like")
-def _ones_like(I, x, **kw):
+def _like(I, x, value):
     x = _val(x)
-    one = z3.RealVal(1)
-    return Cell("arr", SymSeq(x.length, lambda i: one, "Real"))
+    if _scalar(x):
+        return value
+    return Cell("arr", SymSeq(x.length, lambda i: value, "Real"))
+
+
+@lib("numpy.ones_like")
+def _ones_like(I, x, **kw):
+    return _like(I, x, z3.RealVal(1))
+
+
+@lib("numpy.zeros_like")
+def _zeros_like(I, x, **kw):
+    return _like(I, x, z3.RealVal(0))
 
 
 _np_zeros_prev = LIB["numpy.zeros"].fn
